@@ -25,6 +25,8 @@ unsigned g_cb_runs;
 _Bool g_debt;         /* I cleared waiter bits (saw them in the word I exchanged out) and have not yet called wake_all */
 unsigned g_wakes;
 unsigned long g_site_log;
+unsigned g_segs;
+unsigned long g_bits;
 
 unsigned int nondet_u32(void);
 unsigned long nondet_u64(void);
@@ -32,7 +34,7 @@ _Bool nondet_bool(void);
 unsigned short nondet_u16(void);
 
 #define VER(w) ((unsigned short)(w))
-static void vf_havoc_ghosts(void) { g_E = nondet_u16(); g_mine = nondet_bool(); g_published = 0; g_cb_runs = 0; g_debt = 0; g_wakes = 0; }
+static void vf_havoc_ghosts(void) { g_E = nondet_u16(); g_mine = nondet_bool(); g_published = 0; g_cb_runs = 0; g_debt = 0; g_wakes = 0; g_segs = 0; g_bits = nondet_u64(); }
 
 /* the environment: any step allowed by RELY on the focus word */
 static void env_step(void) {
@@ -174,7 +176,6 @@ void lemma_ticket_arith(void) {
 }
 
 /* ---- queue shape -------------------------------------------------------------------------------------------- */
-unsigned long g_bits;
 #define QSHAPE(q) ( __CPROVER_is_fresh(q, sizeof(*q)) && g_bits <= 16 && (q)->_slot_bits == g_bits && (q)->_slot_mask == (1UL << g_bits) - 1 \
    && (q)->_slots._size == (1UL << g_bits) && __CPROVER_is_fresh((q)->_slots._slots, sizeof(Slot_t) << g_bits) )
 
@@ -208,6 +209,69 @@ __CPROVER_requires(ORDER_AT_LEAST_ACQUIRE(order))
 __CPROVER_assigns(*g_w, vf_errno_storage, g_sleeps)
 __CPROVER_ensures(VER(*g_w) == g_E)
 ;
+/* ---- batch operations: round splitting (K1) -------------------------------------------------------------------
+ * push_n / pop_n take num tickets at once and hand them to deal_n_continuously in one or two calls.  The stubs below stand
+ * for deal_n_continuously (every instantiation the lowered code may name gets one: VF_HAVE_<name>) and only record how they
+ * were called; the contract of pop_n / push_n then says: the calls cover exactly [index, index+num) in order, each call
+ * stays inside one round of the ring (so slot_index + i < capacity for every slot it touches), and every call uses the
+ * caller's own USE_FUTEX_WAIT / USE_FUTEX_WAKE / PUSH_OR_POP (a waker mode lost on the wrapped segment is a lost wakeup). */
+unsigned long g_seg_index[3], g_seg_num[3];
+int g_seg_wait[3], g_seg_wake[3], g_seg_push[3];
+static void seg_record(int w, int k, int p, unsigned long index, unsigned long num) {
+  __CPROVER_assert(g_segs < 2, "K1 C01.split at most two segments per batch");
+  if (g_segs < 3) { g_seg_index[g_segs] = index; g_seg_num[g_segs] = num; g_seg_wait[g_segs] = w; g_seg_wake[g_segs] = k; g_seg_push[g_segs] = p; }
+  g_segs++;
+}
+#define SEG_STUB(W, K, P) \
+  void Q_deal_n_continuously__##W##_##K##_##P##_CbNRef(Q_t *q, struct CbN *cb, unsigned long index, unsigned long num) { seg_record(W, K, P, index, num); }
+#ifdef VF_HAVE_Q_deal_n_continuously__0_0_0_CbNRef
+SEG_STUB(0, 0, 0)
+#endif
+#ifdef VF_HAVE_Q_deal_n_continuously__0_0_1_CbNRef
+SEG_STUB(0, 0, 1)
+#endif
+#ifdef VF_HAVE_Q_deal_n_continuously__0_1_0_CbNRef
+SEG_STUB(0, 1, 0)
+#endif
+#ifdef VF_HAVE_Q_deal_n_continuously__0_1_1_CbNRef
+SEG_STUB(0, 1, 1)
+#endif
+#ifdef VF_HAVE_Q_deal_n_continuously__1_0_0_CbNRef
+SEG_STUB(1, 0, 0)
+#endif
+#ifdef VF_HAVE_Q_deal_n_continuously__1_0_1_CbNRef
+SEG_STUB(1, 0, 1)
+#endif
+#ifdef VF_HAVE_Q_deal_n_continuously__1_1_0_CbNRef
+SEG_STUB(1, 1, 0)
+#endif
+#ifdef VF_HAVE_Q_deal_n_continuously__1_1_1_CbNRef
+SEG_STUB(1, 1, 1)
+#endif
+unsigned long vf_atomic_fetch_add_u64(unsigned long *p, unsigned long v, int order, int site) { unsigned long old = *p; *p = old + v; return old; }
+void vf_atomic_store_u64(unsigned long *p, unsigned long v, int order, int site) { *p = v; }
+
+#define QSHAPE_NOSLOTS(q) (__CPROVER_is_fresh(q, sizeof(*q)) && g_bits <= 40 && (q)->_slot_bits == g_bits && (q)->_slot_mask == (1UL << g_bits) - 1)
+#define SPLIT_POST(FIELD, W, K, P) \
+  __CPROVER_ensures(g_segs == 1 || g_segs == 2) \
+  __CPROVER_ensures(g_seg_index[0] == __CPROVER_old(q->FIELD) && q->FIELD == __CPROVER_old(q->FIELD) + num) \
+  __CPROVER_ensures(g_segs == 1 ? g_seg_num[0] == num : (g_seg_num[0] + g_seg_num[1] == num && g_seg_index[1] == g_seg_index[0] + g_seg_num[0] && g_seg_num[0] >= 1 && g_seg_num[1] >= 1)) \
+  __CPROVER_ensures((g_seg_index[0] & q->_slot_mask) + g_seg_num[0] <= q->_slot_mask + 1) \
+  __CPROVER_ensures(g_segs == 1 || (g_seg_index[1] & q->_slot_mask) + g_seg_num[1] <= q->_slot_mask + 1) \
+  __CPROVER_ensures(g_seg_wait[0] == W && g_seg_wake[0] == K && g_seg_push[0] == P) \
+  __CPROVER_ensures(g_segs == 1 || (g_seg_wait[1] == W && g_seg_wake[1] == K && g_seg_push[1] == P))
+
+void Q_pop_n__0_0_1_CbNRef_void(Q_t *q, struct CbN *cb, unsigned long num)
+__CPROVER_requires(QSHAPE_NOSLOTS(q) && num <= q->_slot_mask + 1 && q->_next_pop_index <= (1UL << 62) && g_segs == 0)
+__CPROVER_assigns(q->_next_pop_index, g_segs, __CPROVER_object_whole(g_seg_index), __CPROVER_object_whole(g_seg_num), __CPROVER_object_whole(g_seg_wait), __CPROVER_object_whole(g_seg_wake), __CPROVER_object_whole(g_seg_push))
+SPLIT_POST(_next_pop_index, 0, 1, 0)
+;
+void Q_push_n__1_1_0_CbNRef_void(Q_t *q, struct CbN *cb, unsigned long num)
+__CPROVER_requires(QSHAPE_NOSLOTS(q) && num <= q->_slot_mask + 1 && q->_next_push_index <= (1UL << 62) && g_segs == 0)
+__CPROVER_assigns(q->_next_push_index, g_segs, __CPROVER_object_whole(g_seg_index), __CPROVER_object_whole(g_seg_num), __CPROVER_object_whole(g_seg_wait), __CPROVER_object_whole(g_seg_wake), __CPROVER_object_whole(g_seg_push))
+SPLIT_POST(_next_push_index, 1, 0, 1)
+;
+
 /* loop contract of the futex wait loop (block_until_reach_expected_version_slow), timeout == nullptr instance:
  * partial correctness only -- the loop is left only with the observed word showing the expected version */
 //@loop Q_SlotFutex_block_until_reach_expected_version_slow 1
